@@ -119,6 +119,10 @@ Example unequal_lengths_lose_mass :
   ~ total (transport unequal_cfg 0 0 1 [1; 0]) == total [1; 0].
 Proof. vm_compute. discriminate. Qed.
 
+Lemma unequal_lengths_refute :
+  exists c cs, bcf c = 2%Z /\ bcl c = 2%Z /\ ishift c = 0%Z /\ ~ total (transport c 0 0 1 cs) == total cs.
+Proof. exists unequal_cfg, [1; 0]. repeat split; try reflexivity. exact unequal_lengths_lose_mass. Qed.
+
 (* the hypotheses of the theorems are satisfiable: a 3-cell forward column with flux boundaries *)
 Definition sample_cfg : cfg :=
   mkCfg [mkCell (1 # 10) (2 # 100); mkCell (1 # 10) (2 # 100); mkCell (1 # 10) (2 # 100)] (3 # 10000000000) 1000 1 3 3 false.
